@@ -820,7 +820,7 @@ def tables_theory(ck):
     if not ok:
         # which entries break the obligation (diagnosis only; the spec is coq/Backend/OpTables.v)
         spec = {}
-        raw = (ck.dir.parent.parent / 'coq' / 'Backend' / 'OpTables.v').read_text()
+        raw = (__import__('harness.common', fromlist=['COQ']).COQ / 'Backend' / 'OpTables.v').read_text()
         import re
         for k in kinds:
             body = re.search(r'Definition spec_%s[^\[]*\[(.*?)\]\.' % k, raw, re.S).group(1)
